@@ -59,6 +59,8 @@ type Universe struct {
 	// recorded finding C01-gap-row-const out of comparisons that cannot
 	// recognise its phantom rows)
 	NoConst bool
+	// EmptyDims: probability of a point without any dimension
+	EmptyDims float64
 }
 
 func genUniverse(r *Rng) *Universe {
@@ -95,6 +97,11 @@ func genPred(r *Rng, u *Universe, depth int) *Pred {
 		return &Pred{Kind: k, L: genPred(r, u, depth-1), R: genPred(r, u, depth-1)}
 	}
 	d := PickOne(r, pd)
+	if u.EmptyDims > 0 && r.Bool(0.15) {
+		// (with points that lack every dimension these are the predicates
+		// whose outcome is defined for them)
+		return &Pred{Kind: PickOne(r, []string{"isnull", "notnull"}), Dim: d.Name}
+	}
 	switch d.Kind {
 	case "s":
 		switch r.Intn(5) {
@@ -364,6 +371,10 @@ func genPoint(r *Rng, u *Universe, tables []TableDef, o PointOpts, prev []*Point
 			continue
 		}
 		p.Dims = append(p.Dims, KV{d.Name, PickOne(r, d.Domain)})
+	}
+	if u.EmptyDims > 0 && r.Bool(u.EmptyDims) {
+		// a point without any dimension: its key is the empty byte map
+		p.Dims = nil
 	}
 	// values
 	if o.PowTwo {
